@@ -66,6 +66,44 @@ package freelist
 //@   loop 0 invariant [same] sameheap("txPending.ids") && gfree == old(gfree) && t.Interface == old(t.Interface)
 //@   loop 0 invariant [oldelems] sameelems("common.Pgid")
 
+// Representation invariant of the pending lists, stated over two uninterpreted functions: galloc(p) is the
+// transaction that allocated page p (0: unknown / before the oldest record), gpend(p) the transaction that
+// freed it. A contract that requires reppend for arbitrary galloc/gpend and ensures it again proves that the
+// parallel slices ids/alloctx stay paired and that no page changes its pending transaction.
+//@ uninterp func galloc(p common.Pgid) common.Txid
+//@ uninterp func gpend(p common.Pgid) common.Txid
+//@ pure func reptxp(x *txPending, tid common.Txid) bool = x != nil && len(x.ids) == len(x.alloctx) && allocated(arrayof(x.ids)) && allocated(arrayof(x.alloctx)) && (forall k int :: 0 <= k && k < len(x.ids) ==> x.alloctx[k] == galloc(x.ids[k]) && gpend(x.ids[k]) == tid)
+//@ pure func reppend(t *shared) bool = t.pending != nil && (forall tid common.Txid :: has(t.pending, tid) ==> reptxp(t.pending[tid], tid))
+//@ pure func seppend(t *shared) bool = (forall a common.Txid, b common.Txid :: a != b && has(t.pending, a) && has(t.pending, b) ==> t.pending[a] != t.pending[b] && (len(t.pending[a].ids) == 0 || len(t.pending[b].ids) == 0 || (arrayof(t.pending[a].ids) != arrayof(t.pending[b].ids) && arrayof(t.pending[a].alloctx) != arrayof(t.pending[b].alloctx)))) && (forall a common.Txid :: has(t.pending, a) ==> len(t.pending[a].ids) == 0 || arrayof(t.pending[a].alloctx) != arrayof(t.readonlyTXIDs))
+//@ pure func readerssame(t *shared) bool = len(t.readonlyTXIDs) == old(len(t.readonlyTXIDs)) && arrayof(t.readonlyTXIDs) == old(arrayof(t.readonlyTXIDs)) && offof(t.readonlyTXIDs) == old(offof(t.readonlyTXIDs)) && (forall j int :: 0 <= j && j < len(t.readonlyTXIDs) ==> t.readonlyTXIDs[j] == old(t.readonlyTXIDs[j]))
+
+//@ func (*shared).releaseRange
+//@   props C09 C02 C10
+//@   requires reppend(t) && seppend(t)
+//@   ensures [rep] reppend(t)
+//@   ensures [sep] seppend(t)
+//@   ensures [safe] forall p common.Pgid :: gfree[ifaceref(t.Interface)][p] && !old(gfree[ifaceref(t.Interface)][p]) ==> begin <= galloc(p) && galloc(p) <= end && begin <= gpend(p) && gpend(p) <= end
+//@   ensures [freekept] forall p common.Pgid :: old(gfree[ifaceref(t.Interface)][p]) ==> gfree[ifaceref(t.Interface)][p]
+//@   ensures [dom] forall tid common.Txid :: has(t.pending, tid) ==> old(has(t.pending, tid)) && t.pending[tid] == old(t.pending[tid])
+//@   ensures [outside] forall tid common.Txid :: (tid < begin || tid > end) && old(has(t.pending, tid)) ==> has(t.pending, tid)
+//@   ensures [readers] readerssame(t)
+//@   modifies gfree, mapof(t.pending), all("txPending.ids"), all("txPending.alloctx"), all("txPending.lastReleaseBegin"), allelems("common.Pgid"), allelems("common.Txid"), all("array.ids"), all("hashMap.freePagesCount"), allmaps("uint64", "freelist.pidSet"), allmaps("common.Pgid", "uint64")
+//@   loop 0 invariant [rep] reppend(t)
+//@   loop 0 invariant [sep] seppend(t)
+//@   loop 0 invariant [dom] forall tid common.Txid :: has(t.pending, tid) ==> old(has(t.pending, tid)) && t.pending[tid] == old(t.pending[tid])
+//@   loop 0 invariant [outside] forall tid common.Txid :: (tid < begin || tid > end) && old(has(t.pending, tid)) ==> has(t.pending, tid)
+//@   loop 0 invariant [msafe] forall k int :: 0 <= k && k < len(m) ==> begin <= galloc(m[k]) && galloc(m[k]) <= end && begin <= gpend(m[k]) && gpend(m[k]) <= end
+//@   loop 0 invariant [mfresh] fresh(arrayof(m)) && len(m) >= 0
+//@   loop 0 invariant [ghost] gfree == old(gfree) && t.Interface == old(t.Interface) && t.pending == old(t.pending)
+//@   loop 0 invariant [readers] readerssame(t)
+//@   loop 1 invariant [i] 0 <= i && i <= len(txp.ids)
+//@   loop 1 invariant [rep] reppend(t)
+//@   loop 1 invariant [sep] seppend(t)
+//@   loop 1 invariant [msafe] forall k int :: 0 <= k && k < len(m) ==> begin <= galloc(m[k]) && galloc(m[k]) <= end && begin <= gpend(m[k]) && gpend(m[k]) <= end
+//@   loop 1 invariant [mfresh] fresh(arrayof(m)) && len(m) >= 0
+//@   loop 1 invariant [readers] readerssame(t)
+//@   loop 1 invariant [cur] begin <= tid && tid <= end && has(t.pending, tid) && t.pending[tid] == txp
+
 //@ func (*shared).Free
 //@   props C09 C06 C07 C01
 //@   requires t.pending != nil && t.cache != nil && t.allocs != nil
